@@ -618,6 +618,9 @@ func runC12(c *CaseCtx) (res CaseResult) {
 	if c.Idx%11 == 7 {
 		return runCrossNestedOnce(c, r)
 	}
+	if c.Idx%35 == 3 {
+		return runC12FailingRedefined(c, r)
+	}
 	s, fam := stableScenario(r)
 	noBuilt := func(f *FuncSpec) {
 		if f.InForm == FormBuilt {
